@@ -178,8 +178,22 @@ class Setup:
                     self.kinds[int(v)] = "bern"
         self.scope = sorted(int(v) for v in root.scope)
         self.width = max(self.scope) + 1
-        self.points = {v: sorted(set(float(x) for x in rs.randint(-12, 13, size=6) / 4.0))
-                       for v in self.scope if self.kinds[v] == "gauss"}
+        # test points of a continuous variable: quarter units around 0, or — when its leaves sit far from the origin (gen_root
+        # shifts some variables by 20..40) — integers around their centre, so that the column can also be stored in a narrow
+        # integer dtype
+        from deeprob.spn.structure.leaf import Gaussian as _Ga
+        centre = {}
+        for o in self.objs:
+            if isinstance(o, _Ga):
+                centre.setdefault(int(o.scope[0]), []).append(float(o.mean))
+        self.points = {}
+        for v in self.scope:
+            if self.kinds[v] == "gauss":
+                c = int(round(float(np.mean(centre.get(v, [0.0])))))
+                if c >= 10:
+                    self.points[v] = sorted(set(float(c + x) for x in rs.randint(-3, 4, size=6)))
+                else:
+                    self.points[v] = sorted(set(float(x) for x in rs.randint(-12, 13, size=6) / 4.0))
         codes = np.zeros((n_rows, self.width), dtype=np.int64)
         data = np.zeros((n_rows, self.width), dtype=np.float32)
         for v in self.scope:
@@ -383,6 +397,14 @@ def gen_root(rs, idx, tier):
     for o in objs:   # strictly positive likelihoods: EM's responsibilities are undefined on zero-probability rows
         if isinstance(o, Bernoulli) and o.p in (0.0, 1.0):
             o.p = 1.0 / 16 if o.p == 0.0 else 15.0 / 16
+    from deeprob.spn.structure.leaf import Gaussian as _Ga
+    gv = sorted({int(o.scope[0]) for o in objs if isinstance(o, _Ga)})
+    for v in gv:
+        if rs.rand() < 0.4:
+            off = float(rs.randint(20, 41))          # a continuous variable far from the origin (a count, an age, a temperature)
+            for o in objs:
+                if isinstance(o, _Ga) and int(o.scope[0]) == v:
+                    o.mean = float(o.mean) + off
     assign_ids(root)
     if rs.rand() < 0.35:
         # sums of equal arity start from ONE weight array object (a circuit built by hand from a common initial vector);
@@ -528,6 +550,30 @@ def main(tier, seed, replay=None):
                                                            np.concatenate([np.ravel(x) for x in b] + [[0.0]]), rtol=1e-6, atol=1e-9)
                                           for a, b in zip(snaps, seq2)):
             rep.violation(dict(info, kind="prefix-mismatch", what="num_iter=n differs from n calls with num_iter=1 on the same random state"), True)
+            continue
+        # the same run on the same numbers stored in another dtype (float64; integer dtypes when every entry is integral)
+        alt = [np.float64]
+        if np.all(S.data == np.round(S.data)):
+            alt += [np.int64, np.uint8 if (S.data.min() >= 0 and S.data.max() <= 255) else np.int16]
+        flat = lambda sn: np.concatenate([np.ravel(np.asarray(x, dtype=np.float64)) for x in sn] + [[0.0]])
+        bad_dt = None
+        for dt in alt:
+            try:
+                snaps3, batches3, _, _, _ = run_em(root, S.data.astype(dt), n_iter, bp, eta, rinit, em_seed, one_call=True)
+                if len(snaps3) != len(snaps) or len(batches3) != len(batches) or any(not np.array_equal(a_, b_) for a_, b_ in zip(batches, batches3)) or any(
+                        not np.allclose(flat(a), flat(b), rtol=2e-3, atol=1e-5) for a, b in zip(snaps, snaps3)):
+                    k3 = next((k for k, (a, b) in enumerate(zip(snaps, snaps3)) if not np.allclose(flat(a), flat(b), rtol=2e-3, atol=1e-5)), None)
+                    bad_dt = dict(dtype=np.dtype(dt).name, first_differing_state=k3,
+                                  as_float32=None if k3 is None else snaps[k3], as_this_dtype=None if k3 is None else snaps3[k3])
+            except Exception as e:
+                bad_dt = dict(dtype=np.dtype(dt).name, error=f"{type(e).__name__}: {e}")
+            if bad_dt:
+                break
+        dist["dtype_twins"] = dist.get("dtype_twins", 0) + len(alt)
+        if bad_dt:
+            dist["dtype_viol"] = dist.get("dtype_viol", 0) + 1
+            if dist["dtype_viol"] <= 3:
+                rep.violation(dict(info, kind="em-depends-on-the-dtype-the-data-is-stored-in", **bad_dt), True)
             continue
         if structure(objs) != st0 or structure(objs2) != st0:
             rep.violation(dict(info, kind="structure-changed", before=st0, after=structure(objs)), True); continue
